@@ -1123,16 +1123,16 @@ func main() {
 		}
 	}
 	// listings
-	exhaustive(run.Scale(4, 6))
-	for i := 0; i < run.Scale(1500, 30000); i++ {
+	exhaustive(run.Scale(4, 7))
+	for i := 0; i < run.Scale(1500, 250000); i++ {
 		mx := 12
 		if r.Chance(1, 5) {
-			mx = 40
+			mx = run.Scale(40, 90)
 		}
 		listCase(genScenario(r, mx))
 	}
 	// content/oci
-	for i := 0; i < run.Scale(150, 1500); i++ {
+	for i := 0; i < run.Scale(150, 4000); i++ {
 		genOci(r)
 	}
 }
